@@ -442,9 +442,21 @@ def run_both(bdir, cases, tag, shards=None, timeout=3600, model=True, keys=None,
                 a = [x for x in a if not (x and x[0].startswith('@'))]   # impl-only observations (oracle input)
             if keys is not None:
                 # compare only the observables the property's theorems depend on
+                eff = set(keys)
+                if a is not None and result.get('degraded'):
+                    # through the public entry point the function-by-function observables do not exist: their composed counterparts stand in
+                    if 'lik' in eff:
+                        eff.add('sweep_lik')
+                    if 'w1' in eff:
+                        eff.add('sweep_w')
+                    if 'u1' in eff:
+                        eff.add('sweep_u')
+                    if 'v1' in eff:
+                        eff.add('sweep_v')
+                    eff |= {'PUBLIC-ERROR', 'PUBLIC-NO-SWEEP'}
                 def keep(x):
                     # 'start:w' selects the lines `start <i> w : ...` only
-                    return x and (x[0] in keys or x[0].endswith('-ERROR') or (len(x) > 2 and (x[0] + ':' + x[2]) in keys))
+                    return x and (x[0] in eff or x[0].endswith('-ERROR') or (len(x) > 2 and (x[0] + ':' + x[2]) in eff))
                 if a is not None:
                     a = [x for x in a if keep(x)]
                 if b is not None:
